@@ -163,6 +163,9 @@ def scenarios(tier):
     # 8'. application scan with an exclusion file: no connection to an excluded address
     sc.append({"name": "socks-exclude", "args": ["socks", "--json", "-p", "1080", "--exclude", "{dir}/sexcl", "10.200.0.16/29"], "listen": [1080], "files": {"sexcl": "10.200.0.20/30\n10.200.0.17\n"},
                "expect": {"kind": "app", "scan": "socks", "target": target([10, 200, 0, 16], 29, [rng(1080, 1080)], exclude=[{"ip": [10, 200, 0, 20], "len": 30}, {"ip": [10, 200, 0, 17], "len": 32}])}})
+    # 8". application scan with a rate limit: connection attempts are paced (one probe = one connection for socks)
+    sc.append({"name": "socks-rate", "args": ["socks", "--json", "--rate", "100/s", "-w", "50", "-p", "1080", "10.200.0.64/26"], "listen": [1080], "maxMs": 15000,
+               "expect": {"kind": "app", "scan": "socks", "target": target([10, 200, 0, 64], 26, [rng(1080, 1080)]), "rate": {"n": 100, "winMs": 1000, "winNs": 0}}})
     # 9. application scan: addresses from standard input x two ports
     sc.append({"name": "socks-stdin-two-ports", "args": ["socks", "--json", "-p", "1080,1081", "-f", "-"], "listen": [1080, 1081],
                "stdin": '{"ip":"10.200.0.9"}\n{"ip":"10.200.0.10"}\n',
